@@ -22,7 +22,13 @@ import (
 func init() {
 	register(&Workload{Prop: "C18", Variant: "fault-free", Horizon: 4 * time.Hour, MaxSteps: 6000000, MaxG: 16384, Spin: 200000, PCTLen: 100000, Weight: 1, Body: func(r *R) { c18Run(r, false) }})
 	register(&Workload{Prop: "C18", Variant: "faults", Horizon: 4 * time.Hour, MaxSteps: 6000000, MaxG: 16384, Spin: 200000, PCTLen: 100000, Weight: 3, Body: func(r *R) { c18Run(r, true) }})
+	// fault-free, 2-3 nodes, full fan-out, the seed comes up last and late, detection tick as frequent as the heartbeat
+	register(&Workload{Prop: "C18", Variant: "late-join", Horizon: 4 * time.Hour, MaxSteps: 6000000, MaxG: 16384, Spin: 200000, PCTLen: 100000, Weight: 1, Body: func(r *R) { c18LateJoin = true; defer func() { c18LateJoin = false }(); c18Run(r, false) }})
 }
+
+// c18LateJoin narrows c18Run to the late-join scenario (set only for the duration of one run of that variant; runs of one
+// worker process are sequential).
+var c18LateJoin bool
 
 type cEvt struct {
 	at   time.Duration
@@ -130,8 +136,8 @@ func c18Run(r *R, faults bool) {
 	}
 	cfg.interval = []time.Duration{500 * time.Millisecond, time.Second, 2 * time.Second}[r.Choose(3)]
 	cfg.fdTimeout = []time.Duration{4 * time.Second, 8 * time.Second, 20 * time.Second, 40 * time.Second}[r.Choose(4)]
-	cfg.confirm = []time.Duration{0, 2 * time.Second}[r.Choose(2)]
-	cfg.fanout = []int{1, 2, 20}[r.Choose(3)]
+	cfg.confirm = []time.Duration{0, 2 * time.Second, 10 * time.Second}[r.Choose(3)]
+	cfg.fanout = []int{1, 2, 20, 20, 20}[r.Choose(5)]
 	cfg.strategy = r.Choose(3)
 	if r.Chance(30) {
 		cfg.maxSkew = 5 * time.Second
@@ -139,6 +145,14 @@ func c18Run(r *R, faults bool) {
 	nSeeds := 1
 	if cfg.n >= 3 && r.Chance(40) {
 		nSeeds = 2
+	}
+	if c18LateJoin {
+		cfg.n, nSeeds = 2+r.Choose(2), 1
+		cfg.fanout = 20
+		cfg.interval, cfg.fdTimeout = 2*time.Second, 4*time.Second
+		if r.Chance(30) {
+			cfg.interval, cfg.fdTimeout = time.Second, 4*time.Second
+		}
 	}
 	for i := 0; i < nSeeds; i++ {
 		cfg.seeds = append(cfg.seeds, c18Addr(i))
@@ -155,20 +169,40 @@ func c18Run(r *R, faults bool) {
 		order[i] = i
 	}
 	lateSeed := false
-	if r.Chance(30) {
+	if c18LateJoin || r.Chance(30) {
 		for i := cfg.n - 1; i > 0; i-- {
 			j := r.Choose(i + 1)
 			order[i], order[j] = order[j], order[i]
 		}
+		if c18LateJoin {
+			// the seed (index 0) last
+			for i, v := range order {
+				if v == 0 {
+					order[i], order[cfg.n-1] = order[cfg.n-1], order[i]
+				}
+			}
+		}
 		lateSeed = order[0] >= nSeeds
 		if lateSeed {
 			r.Count("node-started-before-its-seeds")
+			// half of these runs use the tightest timing the options allow: a failure-detection tick (timeout/2) as
+			// frequent as the gossip round, so that a member whose LastSeen is stale when it gets in is judged before
+			// its next heartbeat arrives
+			if r.Chance(50) {
+				cfg.interval, cfg.fdTimeout = 2*time.Second, 4*time.Second
+				desc["gossip_interval"], desc["failure_detection_timeout"] = cfg.interval.String(), cfg.fdTimeout.String()
+				r.Count("late-join-with-tight-failure-detection")
+			}
 		}
 	}
 	desc["start_order"] = fmt.Sprint(order)
 	for k, i := range order {
 		if k > 0 {
 			vsimrt.Sleep(time.Duration(r.Choose(1500)) * time.Millisecond) // timer phase offsets between nodes
+			if lateSeed && i < nSeeds && (c18LateJoin || r.Chance(50)) {
+				// the seed comes up several seconds late: the waiting joiners' node states are older than the timeout
+				vsimrt.Sleep(time.Duration(2+r.Choose(9)) * time.Second)
+			}
 		}
 		if faults && r.Chance(25) {
 			vsimrt.SetSkew(nextTag, time.Duration(r.Choose(4000)-2000)*time.Millisecond)
@@ -182,6 +216,7 @@ func c18Run(r *R, faults bool) {
 	}
 	var fdesc []string
 	departures := 0 // nodes that left the membership for good (crash, leave, restart under a new id)
+	departed := map[string]bool{} // their identities (address#node id) and addresses
 	if lateSeed {
 		// join retries back off 2 s, 4 s, 8 s, ...: give the late joiners time to get in before anything is judged
 		fdesc = append(fdesc, fmt.Sprintf("start order %v (a node started before its seeds and joined by retry)", order))
@@ -229,10 +264,16 @@ func c18Run(r *R, faults bool) {
 					nw.CrashNode(nodes[i].Tag)
 					nodes[i].running = false
 					down := time.Duration(1+r.ChooseF(20)) * time.Second
+					if cfg.confirm > 0 && r.ChooseF(2) == 0 {
+						// come back while the peers hold the old incarnation as Suspect (after the timeout, before the confirmation)
+						down = cfg.fdTimeout + cfg.confirm/2 + time.Duration(r.ChooseF(1000))*time.Millisecond
+						r.Count("restart-while-suspected")
+					}
 					newID := nodes[i].nodeID
 					if r.ChooseF(2) == 0 {
 						newID = fmt.Sprintf("node-%d-r%d", i, nextTag)
 						departures++
+						departed[nodes[i].Addr+"#"+nodes[i].nodeID], departed[nodes[i].Addr] = true, true
 					}
 					fdesc = append(fdesc, fmt.Sprintf("t=%v crash node%d, restart after %v as %s", time.Since(t0).Round(time.Second), i, down, newID))
 					vsimrt.Sleep(down)
@@ -253,6 +294,7 @@ func c18Run(r *R, faults bool) {
 					nw.CrashNode(nodes[i].Tag) // the process exits
 					nodes[i].running = false
 					departures++
+					departed[nodes[i].Addr+"#"+nodes[i].nodeID], departed[nodes[i].Addr] = true, true
 					r.Count("fault:graceful-leave")
 				}
 			case 4: // slow node for a while
@@ -282,6 +324,7 @@ func c18Run(r *R, faults bool) {
 						nw.CrashNode(nodes[i].Tag)
 						nodes[i].running = false
 						departures++
+						departed[nodes[i].Addr+"#"+nodes[i].nodeID], departed[nodes[i].Addr] = true, true
 						fdesc = append(fdesc, fmt.Sprintf("t=%v crash node%d for good", time.Since(t0).Round(time.Second), i))
 						r.Count("fault:crash")
 					}
@@ -324,13 +367,38 @@ func c18Run(r *R, faults bool) {
 		}
 	}
 	wantList := sortedKeysB(want)
-	// facts that select which known protocol weakness (if any) a failure belongs to
-	ctxSuffix := ""
-	if cfg.fanout < cfg.n-1 {
-		ctxSuffix += " partial-fanout"
+	// Every symptom of the run is collected; a symptom is "explained" when one of the two recorded protocol weaknesses
+	// (known_findings.json) accounts for it on this run's configuration:
+	//   partial-fanout  (fan-out < nodes-1): healthy members are suspected/removed/re-added for ever - explains every
+	//                   symptom except a departed identity that is still a member
+	//   after-departure (a node left for good): the departed identity is re-introduced by peers - explains only symptoms
+	//                   that name a departed identity (it is still a member; membership changes that mention it) or a
+	//                   running node on the address of a departed identity (restart under a new node id: the library
+	//                   refreshes LastSeen/Suspect by address and hits the stale entry)
+	// The first unexplained symptom is reported as it is; only if every symptom is explained the run is reported under the
+	// class suffix of the weakness, which the driver matches against the known findings.
+	partial := cfg.fanout < cfg.n-1
+	type symptom struct {
+		cls, msg, suffix string
 	}
-	if departures > 0 {
-		ctxSuffix += " after-departure"
+	var syms []symptom
+	add := func(cls string, byPartial, byDeparture bool, format string, args ...any) {
+		suffix := ""
+		if partial && byPartial {
+			suffix += " partial-fanout"
+		}
+		if departures > 0 && byDeparture {
+			suffix += " after-departure"
+		}
+		syms = append(syms, symptom{cls, fmt.Sprintf(format, args...), suffix})
+	}
+	mentionsDeparted := func(text string) bool {
+		for k := range departed {
+			if !strings.Contains(k, "#") && strings.Contains(text, k) {
+				return true
+			}
+		}
+		return false
 	}
 	leaders := 0
 	leaderAddrs := map[string]bool{}
@@ -342,9 +410,8 @@ func c18Run(r *R, faults bool) {
 			return
 		}
 		got := map[string]bool{}
-		for k, st := range v.members {
+		for k := range v.members {
 			got[k] = true
-			_ = st
 		}
 		gotList := sortedKeysB(got)
 		if strings.Join(gotList, ",") != strings.Join(wantList, ",") {
@@ -354,28 +421,34 @@ func c18Run(r *R, faults bool) {
 					missing = append(missing, k)
 				}
 			}
+			extraAllDeparted := true
 			for _, k := range gotList {
 				if !want[k] {
 					extra = append(extra, k)
+					if !departed[k] {
+						extraAllDeparted = false
+					}
 				}
 			}
-			cls := "C18/membership-wrong"
-			switch {
-			case len(missing) > 0 && len(extra) == 0:
-				cls += " live-node-missing"
-			case len(extra) > 0 && len(missing) == 0:
-				cls += " dead-node-still-member"
-			default:
-				cls += " missing-and-extra"
+			if len(missing) > 0 {
+				// a running node whose address is shared with a departed identity that is still a member (restart under a
+				// new id): refreshes and look-ups by address hit the stale entry - a consequence of the missing tombstones
+				missingShareAddr := true
+				for _, k := range missing {
+					if !departed[strings.SplitN(k, "#", 2)[0]] {
+						missingShareAddr = false
+					}
+				}
+				add("C18/membership-wrong live-node-missing", true, missingShareAddr, "after the quiet phase node %s sees members %v but the running nodes are %v (missing %v, extra %v). %s", n.Addr, gotList, wantList, missing, extra, cfgDesc)
 			}
-			cls += ctxSuffix
-			r.Fail(cls, "after the quiet phase node %s sees members %v but the running nodes are %v (missing %v, extra %v). %s", n.Addr, gotList, wantList, missing, extra, cfgDesc)
-			return
+			if len(extra) > 0 {
+				add("C18/membership-wrong dead-node-still-member", false, extraAllDeparted, "after the quiet phase node %s sees members %v but the running nodes are %v (missing %v, extra %v). %s", n.Addr, gotList, wantList, missing, extra, cfgDesc)
+			}
 		}
-		for k, st := range v.members {
-			if !strings.Contains(st, "status=up") {
-				r.Fail("C18/member-not-up"+ctxSuffix, "node %s sees running member %s as %s after the quiet phase. %s", n.Addr, k, st, cfgDesc)
-				return
+		for _, k := range sortedKeysS(v.members) {
+			st := v.members[k]
+			if want[k] && !strings.Contains(st, "status=up") {
+				add("C18/member-not-up", true, departed[strings.SplitN(k, "#", 2)[0]], "node %s sees running member %s as %s after the quiet phase. %s", n.Addr, k, st, cfgDesc)
 			}
 		}
 		leaderAddrs[v.leader] = true
@@ -389,9 +462,13 @@ func c18Run(r *R, faults bool) {
 		lateThird := quietStart + quiet*2/3
 		for _, e := range n.evts {
 			if e.at > lateThird {
-				n.cmu.Unlock()
-				r.Fail("C18/still-changing kind="+e.kind+ctxSuffix, "node %s announced a %s change (%s) at %v, in the last third of the quiet phase (which started at %v and lasted %v). %s", n.Addr, e.kind, e.info, e.at, quietStart, quiet, cfgDesc)
-				return
+				for i, e2 := range n.evts {
+					if i >= len(n.evts)-40 {
+						r.Note("%s t=%v %s %s", n.Addr, e2.at, e2.kind, e2.info)
+					}
+				}
+				add("C18/still-changing kind="+e.kind, true, e.kind == "members" && mentionsDeparted(e.info), "node %s announced a %s change (%s) at %v, in the last third of the quiet phase (which started at %v and lasted %v). %s", n.Addr, e.kind, e.info, e.at, quietStart, quiet, cfgDesc)
+				break
 			}
 		}
 		n.cmu.Unlock()
@@ -401,16 +478,30 @@ func c18Run(r *R, faults bool) {
 			leaders++
 		}
 		if last.kind == "leader" && last.iAm != (v.leader == n.Addr) {
-			r.Fail("C18/leader-event-stale"+ctxSuffix, "node %s computes leader %s but its last ClusterLeaderChangedEvent (at %v) said leader=%s IAmLeader=%v. %s", n.Addr, v.leader, last.at, last.info, last.iAm, cfgDesc)
-			return
+			add("C18/leader-event-stale", true, false, "node %s computes leader %s but its last ClusterLeaderChangedEvent (at %v) said leader=%s IAmLeader=%v. %s", n.Addr, v.leader, last.at, last.info, last.iAm, cfgDesc)
 		}
 	}
 	if len(leaderAddrs) != 1 {
-		r.Fail("C18/leaders-disagree"+ctxSuffix, "the running nodes compute different leaders: %v. %s", sortedKeysB(leaderAddrs), cfgDesc)
-		return
+		add("C18/leaders-disagree", true, false, "the running nodes compute different leaders: %v. %s", sortedKeysB(leaderAddrs), cfgDesc)
+	} else if leaders != 1 {
+		add(fmt.Sprintf("C18/self-declared-leaders=%d", leaders), true, false, "%d running nodes compute themselves as leader. %s", leaders, cfgDesc)
 	}
-	if leaders != 1 {
-		r.Fail(fmt.Sprintf("C18/self-declared-leaders=%d", leaders)+ctxSuffix, "%d running nodes compute themselves as leader. %s", leaders, cfgDesc)
+	if len(syms) > 0 {
+		for _, n := range live {
+			v := n.view()
+			for _, k := range sortedKeysS(v.members) {
+				r.Note("final view of %s: %s %s (leader %s)", n.Addr, k, v.members[k], v.leader)
+			}
+		}
+	}
+	for _, sy := range syms {
+		if sy.suffix == "" {
+			r.Fail(sy.cls, "%s", sy.msg)
+			return
+		}
+	}
+	if len(syms) > 0 {
+		r.Fail(syms[0].cls+syms[0].suffix, "%s", syms[0].msg)
 		return
 	}
 	r.CountN("live-nodes-checked", len(live))
@@ -418,6 +509,15 @@ func c18Run(r *R, faults bool) {
 }
 
 func sortedKeysB(m map[string]bool) []string {
+	out := make([]string, 0, len(m))
+	for k := range m {
+		out = append(out, k)
+	}
+	sort.Strings(out)
+	return out
+}
+
+func sortedKeysS(m map[string]string) []string {
 	out := make([]string, 0, len(m))
 	for k := range m {
 		out = append(out, k)
